@@ -2,7 +2,7 @@
     released its path (c's cleanup removes the registry entry before it sends the notifications). *)
 From Coq Require Import List NArith ZArith Bool Lia.
 From Vivid Require Import Base.Tm Actor.Core Actor.CoreRun Actor.SpecLife Actor.ProofsLife Actor.ProofsLifeInv Actor.ProofsLifeSum
-  Actor.ProofsLifePhase Actor.ProofsLifeGen Actor.ProofsLifeTree.
+  Actor.ProofsLifePhase Actor.ProofsLifeGen Actor.ProofsLifeTree Actor.ProofsLifeReg.
 Import ListNotations.
 Local Open Scope N_scope.
 #[local] Strategy 100 [run_atomic FUEL].
@@ -517,3 +517,243 @@ Qed.
 Lemma T2_pophead s t i rest :
   SInv s -> T2 s -> pend_of s t = i :: rest -> (i = IEnqDone \/ i = IResume1 \/ i = IResume2) -> T2 (set_pend s t rest).
 Proof. intros _ HT Hp _. apply (T2_pop s t i rest HT Hp). Qed.
+
+(* ------------------------------------------------------------------ exec1: what the emitted instructions carry *)
+
+Lemma existsb_skipn {A} (f : A -> bool) k l : existsb f (skipn k l) = true -> existsb f l = true.
+Proof.
+  intros H. apply existsb_exists in H as (j & Hj & Hf). apply existsb_exists. exists j. split; [|exact Hf].
+  rewrite <- (firstn_skipn k l). apply in_or_app. right. exact Hj.
+Qed.
+Lemma In_firstn {A} (x : A) k l : In x (firstn k l) -> In x l.
+Proof. intros H. rewrite <- (firstn_skipn k l). apply in_or_app. left. exact H. Qed.
+
+(** emitted instructions carry "c was killed" only if the stash did (Unstash) - unless c is the executing context *)
+Lemma exec1_front_taint s t h i s' front x c :
+  exec1 s t h i = (s', front) -> get s (self_of t) = Some x -> c <> self_of t ->
+  forall j, In j front -> instr_mk c j = true -> existsb (env_mk c) (a_stash x) = true.
+Proof.
+  intros He Hg Hc. unfold exec1 in He. rewrite Hg in He.
+  assert (Hsc : Nat.eqb (self_of t) c = false) by (apply Nat.eqb_neq; congruence).
+  destruct i;
+  repeat (match type of He with
+          | (_, _) = (_, _) => inversion He; subst s' front; clear He
+          | context [match ?y with _ => _ end] => destruct y eqn:?
+          end);
+  intros j Hj Hm; in_front Hj; subst; cbn in Hm; rewrite ?Hsc in Hm; try discriminate Hm.
+  - (* Unstash n *)
+    apply existsb_exists. eexists. split; [eapply In_firstn; eassumption|exact Hm].
+  - (* Unstash one *)
+    cbn [existsb]. unfold env_mk in *. rewrite Hm. reflexivity.
+Qed.
+
+(** the executing context itself emits a notification of its own death to others only in its cleanup *)
+Lemma exec1_front_send s t h i s' front x :
+  exec1 s t h i = (s', front) -> get s (self_of t) = Some x ->
+  forall j, In j front -> send_mk (self_of t) j = true -> i = ICleanup.
+Proof.
+  intros He Hg. unfold exec1 in He. rewrite Hg in He.
+  destruct i;
+  repeat (match type of He with
+          | (_, _) = (_, _) => inversion He; subst s' front; clear He
+          | context [match ?y with _ => _ end] => destruct y eqn:?
+          end);
+  intros j Hj Hm; in_front Hj; subst; cbn in Hm; rewrite ?Nat.eqb_refl in Hm; try discriminate Hm; try reflexivity.
+Qed.
+
+(** the executing context's record: apart from its own death, nothing new *)
+Lemma exec1_self_taint s t h i s' front x x' c :
+  exec1 s t h i = (s', front) -> get s (self_of t) = Some x -> get s' (self_of t) = Some x' -> c <> self_of t ->
+  taint c x' = true -> taint c x = true.
+Proof.
+  intros He Hg Hg' Hc.
+  assert (Hsc : Nat.eqb (self_of t) c = false) by (apply Nat.eqb_neq; congruence).
+  destruct (is_spawn i) eqn:Hsp.
+  { destruct i as [| | | | | | | | |ac| | | | | | | | | | | |]; try discriminate Hsp. destruct ac; try discriminate Hsp.
+    destruct (exec1_spawn_cases _ _ _ _ _ _ _ He Hg) as [(o & ->)|(Hnk & Hpl & Hr)].
+    - change (get (add_obs s o) (self_of t)) with (get s (self_of t)) in Hg'. rewrite Hg in Hg'. inversion Hg'; subst. auto.
+    - destruct (exec1_spawn_ok s t h sp x s' front Hg Hnk Hpl Hr He) as (_ & _ & _ & Hs & _).
+      rewrite Hs in Hg'. inversion Hg'; subst x'. intros H. exact H. }
+  unfold exec1 in He. rewrite Hg in He. unfold get in Hg, Hg'.
+  destruct i; try discriminate Hsp;
+  repeat (match type of He with
+          | (_, _) = (_, _) => inversion He; subst s' front; clear He
+          | context [match ?y with _ => _ end] => destruct y eqn:?
+          end); try discriminate Hsp.
+  all: cbn [actors set_actor add_obs set_subs set_reg set_err add_ghost] in Hg'.
+  all: try rewrite (nth_error_upd_same _ _ _ _ Hg) in Hg'; try rewrite Hg in Hg'.
+  all: try (inversion Hg'; subst x'; clear Hg'; intros H; exact H).
+  all: try (inversion Hg'; subst x'; clear Hg'; intros H; apply taint_split in H; apply taint_split;
+            cbn in H; repeat (match type of H with context [match ?z with _ => _ end] => destruct z eqn:? end; cbn in H);
+            rewrite ?Hsc in H; cbn in H;
+            repeat match goal with E : _ = _ |- _ => rewrite E end;
+            destruct H as [H|[H|[H|[H|[H|H]]]]]; auto 10; try discriminate H; fail).
+  - (* Stash *)
+    inversion Hg'; subst x'. intros H. apply taint_split in H. apply taint_split.
+    cbn [set_stash upd_local a_sq a_uq a_stash a_cons a_cur a_pend] in H. rewrite Heqo.
+    destruct H as [H|[H|[H|[H|[H|H]]]]]; auto 10.
+    + rewrite existsb_app in H. cbn [existsb] in H. rewrite orb_false_r in H. apply orb_prop in H as [H|H]; auto 10.
+    + rewrite Heqo in H. auto 10.
+  - (* Unstash n *)
+    inversion Hg'; subst x'. intros H. apply taint_split in H. apply taint_split.
+    cbn [set_stash upd_local a_sq a_uq a_stash a_cons a_cur a_pend] in H.
+    destruct H as [H|[H|[H|[H|[H|H]]]]]; auto 10. apply existsb_skipn in H. auto 10.
+  - (* Unstash one *)
+    inversion Hg'; subst x'. intros H. apply taint_split in H. apply taint_split.
+    cbn [set_stash upd_local a_sq a_uq a_stash a_cons a_cur a_pend] in H. rewrite Heql. cbn [existsb].
+    destruct H as [H|[H|[H|[H|[H|H]]]]]; auto 10. rewrite H, orb_true_r. auto 10.
+Qed.
+
+(* ------------------------------------------------------------------ the micro-step *)
+
+Lemma alookup_aremove_Some {A} (l : list (path * A)) p q v : alookup (aremove l p) q = Some v -> alookup l q = Some v.
+Proof.
+  induction l as [|[r w] l IH]; cbn [aremove alookup]; [discriminate|].
+  destruct (path_eqb p r) eqn:E.
+  - intros H. specialize (IH H). destruct (path_eqb q r) eqn:E2; [|exact IH].
+    apply path_eqb_eq in E, E2. subst. rewrite alookup_aremove_same in H. discriminate H.
+  - cbn [alookup]. destruct (path_eqb q r); [auto|exact IH].
+Qed.
+
+Lemma live_exec1 s t h i s' front x c :
+  exec1 s t h i = (s', front) -> get s (self_of t) = Some x -> live s' c -> live s c.
+Proof.
+  intros He Hg Hl. destruct (is_spawn i) eqn:Hsp.
+  - destruct i as [| | | | | | | | |ac| | | | | | | | | | | |]; try discriminate Hsp. destruct ac; try discriminate Hsp.
+    destruct (exec1_spawn_cases _ _ _ _ _ _ _ He Hg) as [(o & ->)|(Hnk & Hpl & Hr)]; [exact Hl|].
+    destruct (exec1_spawn_ok s t h sp x s' front Hg Hnk Hpl Hr He) as (Hlen & Hnew & Hoth & Hself & Hreg & _).
+    destruct Hl as [(Hc0 & y & Hy & Hlk)|Hlen']; [|right; lia].
+    destruct (Nat.eq_dec c (length (actors s))) as [->|Hcn]; [right; lia|]. left. split; [exact Hc0|].
+    assert (Hyx : exists y0, get s c = Some y0 /\ a_path y0 = a_path y).
+    { destruct (Nat.eq_dec c (self_of t)) as [->|Hcs].
+      - rewrite Hself in Hy. inversion Hy; subst y. exists x. split; [exact Hg|reflexivity].
+      - rewrite (Hoth c Hcs Hcn) in Hy. exists y. split; [exact Hy|reflexivity]. }
+    destruct Hyx as (y0 & Hy0 & Hp). exists y0. split; [exact Hy0|]. rewrite Hp.
+    rewrite Hreg, alookup_app in Hlk. destruct (alookup (reg s) (a_path y)) as [v|]; [exact Hlk|].
+    cbn [alookup] in Hlk. destruct (path_eqb (a_path y) (a_path x ++ [sp_name sp])); [|discriminate Hlk].
+    inversion Hlk. congruence.
+  - destruct (exec1_summary s t h i s' front x Hsp He Hg) as (x' & Ha & Hc & _ & _ & _ & _ & _ & _ & _ & _ & _ & _ & Hrg & _).
+    assert (Hlen : length (actors s') = length (actors s)) by (rewrite Ha; apply length_upd).
+    destruct Hl as [(Hc0 & y & Hy & Hlk)|Hlen']; [|right; lia]. left. split; [exact Hc0|].
+    assert (Hyx : exists y0, get s c = Some y0 /\ a_path y0 = a_path y).
+    { unfold get in Hy. rewrite Ha in Hy. destruct (Nat.eq_dec (self_of t) c) as [<-|Hcs].
+      - rewrite (nth_error_upd_same _ _ _ _ Hg) in Hy. inversion Hy; subst y. exists x. split; [exact Hg|]. symmetry. apply Hc.
+      - rewrite nth_error_upd_other in Hy by exact Hcs. exists y. split; [exact Hy|reflexivity]. }
+    destruct Hyx as (y0 & Hy0 & Hp). exists y0. split; [exact Hy0|]. rewrite Hp.
+    destruct (chg_reg i) eqn:Hcr; [|rewrite <- (Hrg eq_refl); exact Hlk].
+    destruct i; try discriminate Hcr. rewrite (exec1_ICleanup _ _ _ _ Hg) in He. inversion He; subst s'.
+    cbn [reg set_reg set_subs] in Hlk. apply (alookup_aremove_Some _ _ _ _ Hlk).
+Qed.
+
+Lemma taint_new c p g pa sp : taint c (new_actor p g pa sp) = false.
+Proof. reflexivity. Qed.
+
+Lemma taint_upd_pend c y P :
+  taint c (upd_pend y P) = true -> taint c (upd_pend y []) = true \/ existsb (instr_mk c) P = true.
+Proof.
+  intros H. apply taint_split in H. cbn [upd_pend a_sq a_uq a_stash a_cons a_cur a_pend] in H.
+  destruct H as [H|[H|[H|[H|[H|H]]]]]; [left|left|left|left|left|right; exact H];
+  apply taint_split; cbn [upd_pend a_sq a_uq a_stash a_cons a_cur a_pend]; auto 10.
+Qed.
+
+Lemma taint_upd_pend_mono c y P Q0 :
+  (forall j, In j P -> In j Q0) -> taint c (upd_pend y P) = true -> taint c (upd_pend y Q0) = true.
+Proof.
+  intros Hsub H. apply taint_split in H. apply taint_split. cbn [upd_pend a_sq a_uq a_stash a_cons a_cur a_pend] in *.
+  destruct H as [H|[H|[H|[H|[H|H]]]]]; auto 10. do 5 right.
+  apply existsb_exists in H as (j & Hj & Hm). apply existsb_exists. exists j. auto.
+Qed.
+
+Lemma T2_astep s t i rest :
+  SInv s -> T2 s -> err s = false -> pend_of s t = i :: rest -> yielding i = false ->
+  (forall sys to sender m, i <> IEnq sys to sender m) -> err (astep s t i rest) = false -> T2 (astep s t i rest).
+Proof.
+  intros [HA HX] HT He0 Hp Hy Hne He1.
+  pose proof (T2_pop s t i rest HT Hp) as HT0.
+  destruct t as [a|k].
+  - destruct (pend_of_TA_cons _ _ _ _ Hp) as (x & Hg & Hpx).
+    destruct (astep_TA s a i rest x Hg) as (s1 & front & x1 & He & Hg1 & Hp1 & Heq). rewrite Heq in *. clear Heq.
+    assert (Hs0 : set_pend s (TA a) rest = set_actor s a (upd_pend x rest)) by (cbn [set_pend]; unfold with_actor; rewrite Hg; reflexivity).
+    rewrite Hs0 in HT0. set (s0 := set_actor s a (upd_pend x rest)) in *.
+    assert (Hg0 : get s0 (self_of (TA a)) = Some (upd_pend x rest)) by apply (get_set_actor_same _ _ _ _ Hg).
+    intros c Hlive.
+    assert (Hl1 : live s1 c).
+    { apply (live_psame s1 (set_actor s1 a (upd_pend x1 (front ++ rest))) c); [|exact Hlive]. apply (psame_set_actor s1 a x1); [exact Hg1|reflexivity]. }
+    pose proof (live_exec1 _ _ _ _ _ _ _ c He Hg0 Hl1) as Hl0.
+    destruct (HT0 c Hl0) as (C1 & C2). split.
+    + intros q y Hq. destruct (Nat.eq_dec a q) as [<-|Haq].
+      * rewrite (get_set_actor_same _ _ _ _ Hg1) in Hq. inversion Hq; subst y. clear Hq.
+        assert (Hg0a : get s0 a = Some (upd_pend x rest)) by exact Hg0.
+        specialize (C1 a _ Hg0a). unfold otaint in *. cbn [upd_pend a_pend] in *.
+        destruct (Nat.eqb a c) eqn:Hac.
+        -- apply Nat.eqb_eq in Hac. subst c. rewrite existsb_app, C1, orb_false_r.
+           apply existsb_false_intro. intros j Hj. destruct (send_mk a j) eqn:Es; [|reflexivity]. exfalso.
+           pose proof (exec1_front_send _ _ _ _ _ _ _ He Hg0 j Hj Es) as ->.
+           rewrite (exec1_ICleanup _ _ _ _ Hg0) in He. inversion He as [[Hs1 Hfr]].
+           destruct Hl1 as [(_ & y & Hy1 & Hlk)|Hlen].
+           ++ rewrite Hg1 in Hy1. inversion Hy1; subst y. rewrite <- Hs1 in Hlk, Hg1. cbn [reg set_reg set_subs] in Hlk.
+              unfold get in Hg1, Hg0. cbn [actors set_reg set_subs] in Hg1. cbn [self_of] in Hg0. rewrite Hg0 in Hg1. inversion Hg1; subst x1.
+              rewrite alookup_aremove_same in Hlk. discriminate Hlk.
+           ++ pose proof (get_lt _ _ _ Hg1). lia.
+        -- apply Nat.eqb_neq in Hac.
+           destruct (taint c (upd_pend x1 (front ++ rest))) eqn:E; [|reflexivity]. exfalso.
+           assert (Hx1 : upd_pend x1 rest = x1) by (destruct x1; cbn in *; subst; reflexivity).
+           destruct (taint_upd_pend c x1 _ E) as [E1|E1].
+           ++ assert (E2 : taint c x1 = true) by (rewrite <- Hx1; apply (taint_upd_pend_mono c x1 [] rest); [intros j []|exact E1]).
+              rewrite (exec1_self_taint _ _ _ _ _ _ _ _ c He Hg0 Hg1 (fun Ec => Hac (eq_sym Ec)) E2) in C1. discriminate C1.
+           ++ rewrite existsb_app in E1. apply orb_prop in E1 as [E1|E1].
+              ** apply existsb_exists in E1 as (j & Hj & Hm).
+                 pose proof (exec1_front_taint _ _ _ _ _ _ _ c He Hg0 (fun Ec => Hac (eq_sym Ec)) j Hj Hm) as Hst.
+                 assert (taint c (upd_pend x rest) = true) by (apply taint_split; auto 10). congruence.
+              ** assert (taint c (upd_pend x rest) = true) by (apply taint_split; cbn [upd_pend a_pend]; auto 10). congruence.
+      * rewrite get_set_actor_other in Hq by exact Haq.
+        destruct (exec1_other _ _ _ _ _ _ q y He (fun E => Haq (eq_sym E)) Hq) as [Hq0|(_ & _ & sp & x0 & _ & _ & _ & _ & _ & ->)].
+        -- apply (C1 q y Hq0).
+        -- unfold otaint. destruct (Nat.eqb q c); reflexivity.
+    + intros k ex Hk. change (exts (set_actor s1 a (upd_pend x1 (front ++ rest)))) with (exts s1) in Hk.
+      pose proof (exec1_exts_pend _ _ _ _ _ _ He k) as Hx. rewrite Hk in Hx. cbn [option_map] in Hx.
+      destruct (nth_error (exts s0) k) as [ex0|] eqn:Hk0; [|discriminate Hx]. cbn [option_map] in Hx.
+      inversion Hx as [Hxp]. rewrite Hxp. apply (C2 k ex0 Hk0).
+  - destruct (pend_of_TX_cons _ _ _ _ Hp) as (ex & Hn & Hpx).
+    destruct (astep_TX s k i rest ex Hn) as (s1 & front & ex1 & He & Hn1 & Hp1 & Hoth & Heq). rewrite Heq in *. clear Heq.
+    assert (Hs0 : set_pend s (TX k) rest = set_ext s k {| x_pend := rest; x_held := x_held ex |}) by (cbn [set_pend]; rewrite Hn; reflexivity).
+    rewrite Hs0 in HT0. set (s0 := set_ext s k {| x_pend := rest; x_held := x_held ex |}) in *.
+    destruct (get s 0) as [x|] eqn:Hg.
+    2:{ unfold exec1 in He. cbn [self_of] in He. change (get s0 0%nat) with (get s 0%nat) in He.
+        rewrite Hg in He. inversion He; subst s1. discriminate He1. }
+    assert (Hg0 : get s0 (self_of (TX k)) = Some x) by exact Hg.
+    intros c Hlive.
+    assert (Hl1 : live s1 c).
+    { destruct Hlive as [(Hc0 & y & Hyy & Hlk)|Hlen]; [left; split; [exact Hc0|]; exists y; split; [exact Hyy|exact Hlk]|right; exact Hlen]. }
+    pose proof (live_exec1 _ _ _ _ _ _ _ c He Hg0 Hl1) as Hl0.
+    assert (Hc0 : c <> 0%nat).
+    { destruct Hl0 as [(Hc0 & _)|Hlen]; [exact Hc0|]. pose proof (get_lt _ _ _ Hg0). cbn [self_of] in *. change (actors s0) with (actors s) in *. lia. }
+    destruct (HT0 c Hl0) as (C1 & C2).
+    destruct (exec1_self _ _ _ _ _ _ _ He Hg0) as (x1 & Hg1 & _).
+    assert (Hroot : taint c x = false).
+    { specialize (C1 0%nat x Hg0). unfold otaint in C1. destruct (Nat.eqb 0 c) eqn:E; [apply Nat.eqb_eq in E; congruence|exact C1]. }
+    split.
+    + intros q y Hq. change (get (set_ext s1 k {| x_pend := front ++ rest; x_held := x_held ex1 |}) q) with (get s1 q) in Hq.
+      destruct (Nat.eq_dec q 0) as [->|Hq0].
+      * cbn [self_of] in Hg1. rewrite Hg1 in Hq. inversion Hq; subst y.
+        unfold otaint. destruct (Nat.eqb 0 c) eqn:E; [apply Nat.eqb_eq in E; congruence|].
+        destruct (taint c x1) eqn:E1; [|reflexivity].
+        rewrite (exec1_self_taint _ _ _ _ _ _ _ _ c He Hg0 Hg1 Hc0 E1) in Hroot. discriminate Hroot.
+      * destruct (exec1_other _ _ _ _ _ _ q y He Hq0 Hq) as [Hq1|(_ & _ & sp & x0 & _ & _ & _ & _ & _ & ->)].
+        -- apply (C1 q y Hq1).
+        -- unfold otaint. destruct (Nat.eqb q c); reflexivity.
+    + intros j exj Hj. unfold set_ext in Hj; cbn [exts] in Hj.
+      destruct (Nat.eq_dec k j) as [<-|Hkj].
+      * rewrite (nth_error_upd_same _ _ _ _ Hn1) in Hj. inversion Hj; subst exj. cbn [x_pend].
+        rewrite existsb_app. apply orb_false_intro.
+        -- apply existsb_false_intro. intros q Hq. destruct (instr_mk c q) eqn:Em; [|reflexivity]. exfalso.
+           pose proof (exec1_front_taint _ _ _ _ _ _ _ c He Hg0 Hc0 q Hq Em) as Hst.
+           assert (taint c x = true) by (apply taint_split; auto 10). congruence.
+        -- assert (Hk0 : nth_error (exts s0) k = Some {| x_pend := rest; x_held := x_held ex |})
+             by (unfold s0, set_ext; cbn [exts]; apply (nth_error_upd_same _ _ _ _ Hn)).
+           apply (C2 k _ Hk0).
+      * rewrite nth_error_upd_other in Hj by exact Hkj.
+        pose proof (exec1_exts_pend _ _ _ _ _ _ He j) as Hx. rewrite Hj in Hx. cbn [option_map] in Hx.
+        destruct (nth_error (exts s0) j) as [ex0|] eqn:Hk0; [|discriminate Hx]. cbn [option_map] in Hx.
+        inversion Hx as [Hxp]. rewrite Hxp. apply (C2 j ex0 Hk0).
+Qed.
